@@ -1,7 +1,10 @@
 /* Contract of the inline overload  template<typename T> static T Math::AngDiff(T x, T y)  (Math.hpp): callers need only
  * the range and the NaN behaviour.  (This file was the assumed contract Math_AngDiff.c of earlier commits.) */
-/*@ clause frame src=property props=C14 */
+/*@ clause frame src=property props=C14 only=enforce */
 __CPROVER_assigns(vm_last_k)
+/*@ clause frame.caller src=property only=replace */
+/* the ghost variables of the model / captures are not part of what a caller sees */
+__CPROVER_assigns()
 /*@ clause post.range src=property props=C16 */
 __CPROVER_ensures(isnan(__CPROVER_return_value) || (-180.0 <= __CPROVER_return_value && __CPROVER_return_value <= 180.0))
 /*@ clause post.nan src=property props=C16 */
